@@ -693,6 +693,7 @@ func c04(r *Run) {
 	regFreePairings(r, "", "after a sequence of registrations a lookup by a name does not give the template most recently registered under that name", 4, r.N(3000, 100000))
 	// --- a Parse that FAILED leaves nothing behind: the next Parse of a well-formed source yields that source's tree ---
 	c04AfterFailedParse(r)
+	parseVerdictStable(r, "")
 	// --- the file entry point: ParseFile(name) is Parse(what the file holds now) ---
 	parseFileRel(r, "")
 }
@@ -891,5 +892,76 @@ func c04Judge(r *Run, c *c04Case, line, ans string, nSample *int) {
 			r.TieBreak("Db model ≙ db.go", desc(i), g, m)
 		}
 		return // later tokens of the same history are consequences
+	}
+}
+
+// parseVerdictStable: the verdict of Parse on a byte string does not depend on what was registered before — in
+// particular not on the PARTIAL tree Parse hands out next to an error (README: `tree, _ := dyntpl.Parse(...)`
+// followed by RegisterTplKey). A relation on the real engine alone; model: C04.parse_verdict_own_source.
+func parseVerdictStable(r *Run, prefix string) {
+	bad := []string{"vs-a {% if user.Id == 1 %}hello", "vs-b hello{% endif %}", "vs-c {% if a == 1 %}{% for _, v := range l %}x{% endif %}{% endfor %}", "vs-d a{%= v", "vs-e {% switch a %}{% case 1 %}x",
+		"vs-f {% for i := 0; i < 2; i++ %}x", "vs-g {% if a == 1 %}x{% else %}y", "vs-h x{% endswitch %}", "vs-i {% if a == 1 %}x{% endfor %}"}
+	good := []string{"vs-good plain", "vs-good {% if a == 1 %}x{% endif %}", "vs-good {% for i := 0; i < 2; i++ %}{%= i %}{% endfor %}"}
+	defer dyntpl.VerifResetRegistry()
+	for bi, b := range bad {
+		for _, keep := range []bool{false, true} {
+			for variant := 0; variant < 4; variant++ {
+				dyntpl.VerifResetRegistry()
+				var hist []string
+				tree, err1, pan := parseSafe([]byte(b), keep)
+				hist = append(hist, fmt.Sprintf("Parse(%q, %v) -> tree=%v err=%v", b, keep, tree != nil, err1))
+				sig := fmt.Sprintf("%sparse-verdict-stable bad=%d keepFmt=%v variant=%d", prefix, bi, keep, variant)
+				r.Count(sig, true)
+				r.Dist[prefix+"parse_verdict_stable"]++
+				if pan != "" || err1 == nil {
+					r.Violate(sig+" first", "a malformed source is not rejected by the first Parse", map[string]any{"history": hist, "panic": pan})
+					continue
+				}
+				regPan := ""
+				if tree != nil {
+					func() {
+						defer func() {
+							if x := recover(); x != nil {
+								regPan = fmt.Sprint(x)
+							}
+						}()
+						switch variant {
+						case 0:
+							dyntpl.RegisterTplKey("vs-kept", tree)
+						case 1:
+							dyntpl.RegisterTplID(41, tree)
+						case 2:
+							dyntpl.RegisterTpl(42, "vs-both", tree)
+						case 3:
+							// registered, then replaced by the tree of a good source under the same key, then registered again under another
+							dyntpl.RegisterTplKey("vs-kept", tree)
+							if gt, gerr, gpan := parseSafe([]byte(good[bi%len(good)]), keep); gerr == nil && gpan == "" {
+								dyntpl.RegisterTplKey("vs-kept", gt)
+							}
+							dyntpl.RegisterTplKey("vs-again", tree)
+						}
+					}()
+					hist = append(hist, fmt.Sprintf("register variant %d (panic=%q)", variant, regPan))
+				}
+				for round := 0; round < 2; round++ {
+					_, err2, pan2 := parseSafe([]byte(b), keep)
+					hist = append(hist, fmt.Sprintf("Parse(%q, %v) -> err=%v", b, keep, err2))
+					if pan2 != "" || err2 == nil || err2.Error() != err1.Error() {
+						r.Violate(sig+" again", "the same malformed bytes get a different verdict from Parse once the partial tree of the first Parse was registered",
+							map[string]any{"history": hist, "first_error": err1.Error(), "later_error": fmt.Sprint(err2), "panic": pan2})
+						break
+					}
+				}
+				for _, g := range good {
+					_, gerr, gpan := parseSafe([]byte(g), keep)
+					if gerr != nil || gpan != "" {
+						hist = append(hist, fmt.Sprintf("Parse(%q, %v) -> err=%v", g, keep, gerr))
+						r.Violate(sig+" good", "a well-formed source is rejected after the partial tree of a rejected one was registered",
+							map[string]any{"history": hist, "error": fmt.Sprint(gerr), "panic": gpan})
+						break
+					}
+				}
+			}
+		}
 	}
 }
